@@ -45,8 +45,8 @@ def guard_free(name, model, opts):
     return True
 
 
-def make(rng, tier, tied_stratum=None, large=None):
-    name = large or tied_stratum or NAMES[int(rng.integers(0, len(NAMES)))]
+def make(rng, tier, tied_stratum=None, large=None, int_start=None):
+    name = int_start or large or tied_stratum or NAMES[int(rng.integers(0, len(NAMES)))]
     K = int(rng.integers(2, 4))
     D = int(rng.integers(2, 5))
     N = 4 * K * D + int(rng.integers(0, 12))
@@ -69,7 +69,7 @@ def make(rng, tier, tied_stratum=None, large=None):
                 for k_, v in data.items()}
     init = mm.make_init(rng, K, N, lead, 'positive')
     _COUNT[0] += 1
-    int_init = name != 'gcacgmm' and _COUNT[0] % 5 == 0
+    int_init = name != 'gcacgmm' and (_COUNT[0] % 5 == 0 or bool(int_start))
     if int_init:
         # "all strictly positive initial affiliations": vote counts, integer typed and not normalised
         init = rng.integers(1, 7, size=init.shape)
@@ -97,6 +97,10 @@ def make(rng, tier, tied_stratum=None, large=None):
     iters = int(rng.integers(3, 13)) if tier == 'quick' else int(rng.integers(3, 51))
     if tier == 'quick' and 'saliency' in o and lead and rng.random() < 0.6:
         iters = int(rng.integers(20, 36))        # late-iteration decreases need a longer history
+    if int_start:
+        # vote counts as start, a saliency with a wide spread, a long history
+        o['saliency'] = rng.uniform(0.05, 3.0, size=(*lead, N))
+        iters = int(rng.integers(25, 36))
     if tied_stratum:
         # weights tied across the independent axis + saliency totals differing per slice + a long history
         o['weight_constant_axis'] = [(-3,), (-3, -1)][int(rng.integers(0, 2))]
@@ -182,6 +186,8 @@ def cases(rng, tier):
     out = [make(rng, tier) for _ in range(n)]
     for i in range(8 if tier == 'quick' else 60):
         out.append(make(rng, tier, tied_stratum=['cacgmm', 'cwmm', 'gmm', 'gcacgmm'][i % 4]))
+    for i in range(5 if tier == 'quick' else 20):
+        out.append(make(rng, tier, int_start=['gmm', 'gmm', 'cacgmm', 'gmm', 'cwmm'][i % 5]))
     for i in range(4 if tier == 'quick' else 15):
         out.append(make(rng, tier, large=['cacgmm', 'gmm', 'cacgmm', 'cwmm', 'gcacgmm'][i % 5]))
     return out
